@@ -288,4 +288,224 @@ theorem default_lost_witness :
   · rw [eqB_succ, h7, h0, e2]; rfl
 
 end Yaml
+
+/-! ## §4  fromRandom (as a function of the recorded draws) -/
+
+section Random
+
+theorem inShapeB_succ {ν : Type} (d n : Nat) (ns : List Nat) (t : Tree Nat ν (d + 1)) :
+    inShapeB (d + 1) (n :: ns) t = (asList t).all (fun e => decide (e.1 < n) && inShapeB d ns e.2) := rfl
+
+/-- Whatever the draws, every coordinate the random tree stores lies inside the requested
+    shape, at every level. -/
+theorem random_in_shape (dflt : Int) : ∀ (d : Nat) (shape dens : List Nat) (s s' : Draws) (t : Tree Nat Int (d + 1)),
+    fromRandom dflt d shape dens s = some (t, s') → inShapeB (d + 1) shape t = true := by
+  intro d
+  induction d with
+  | zero =>
+    intro shape dens s s' t h
+    cases shape with
+    | nil => rw [fromRandom_nil_shape] at h; cases h
+    | cons n ns =>
+      cases dens with
+      | nil => rw [fromRandom_nil_dens] at h; cases h
+      | cons q qs =>
+        rw [fromRandom_zero] at h
+        rw [inShapeB_succ]
+        apply List.all_eq_true.2
+        intro e he
+        have := (randLoop_mem _ _ _ _ h e he).1
+        have hlt : e.1 < n := List.mem_range.1 this
+        simp [hlt, inShapeB]
+  | succ d ih =>
+    intro shape dens s s' t h
+    cases shape with
+    | nil => rw [fromRandom_nil_shape] at h; cases h
+    | cons n ns =>
+      cases dens with
+      | nil => rw [fromRandom_nil_dens] at h; cases h
+      | cons q qs =>
+        rw [fromRandom_succ] at h
+        rw [inShapeB_succ]
+        apply List.all_eq_true.2
+        intro e he
+        obtain ⟨hmem, s1, s2, hb⟩ := randLoop_mem _ _ _ _ h e he
+        have hlt : e.1 < n := List.mem_range.1 hmem
+        obtain ⟨u, us', _, hcase⟩ := randUpperBody_some hb
+        rcases hcase with ⟨_, t', ht', hp⟩ | ⟨_, _, hp, _⟩
+        · have hin := ih ns qs _ s2 t' ht'
+          by_cases hemp : isEmpty dflt (d + 1) t' = true
+          · rw [if_pos hemp] at hp; cases hp
+          · rw [if_neg hemp] at hp
+            have : e.2 = t' := Option.some.inj hp
+            rw [this, hin]
+            simp [hlt]
+        · cases hp
+
+/-- The stored coordinates are strictly increasing at every level (sub-sequence of `range`). -/
+theorem random_sorted (dflt : Int) : ∀ (d : Nat) (shape dens : List Nat) (s s' : Draws) (t : Tree Nat Int (d + 1)),
+    fromRandom dflt d shape dens s = some (t, s') → WF (d + 1) t := by
+  intro d
+  induction d with
+  | zero =>
+    intro shape dens s s' t h
+    cases shape with
+    | nil => rw [fromRandom_nil_shape] at h; cases h
+    | cons n ns =>
+      cases dens with
+      | nil => rw [fromRandom_nil_dens] at h; cases h
+      | cons q qs =>
+        rw [fromRandom_zero] at h
+        refine ⟨?_, fun _ _ => trivial⟩
+        have hsub := randLoop_sublist _ _ _ _ h
+        have : List.Pairwise (· < ·) (List.map (·.1) (asList t)) :=
+          List.Pairwise.sublist hsub List.pairwise_lt_range
+        exact (List.pairwise_map.1 this)
+  | succ d ih =>
+    intro shape dens s s' t h
+    cases shape with
+    | nil => rw [fromRandom_nil_shape] at h; cases h
+    | cons n ns =>
+      cases dens with
+      | nil => rw [fromRandom_nil_dens] at h; cases h
+      | cons q qs =>
+        rw [fromRandom_succ] at h
+        refine ⟨?_, ?_⟩
+        · have hsub := randLoop_sublist _ _ _ _ h
+          have : List.Pairwise (· < ·) (List.map (·.1) (asList t)) :=
+            List.Pairwise.sublist hsub List.pairwise_lt_range
+          exact (List.pairwise_map.1 this)
+        · intro e he
+          obtain ⟨_, s1, s2, hb⟩ := randLoop_mem _ _ _ _ h e he
+          obtain ⟨u, us', _, hcase⟩ := randUpperBody_some hb
+          rcases hcase with ⟨_, t', ht', hp⟩ | ⟨_, _, hp, _⟩
+          · by_cases hemp : isEmpty dflt (d + 1) t' = true
+            · rw [if_pos hemp] at hp; cases hp
+            · rw [if_neg hemp] at hp
+              have : e.2 = t' := Option.some.inj hp
+              rw [this]
+              exact ih ns qs _ s2 t' ht'
+          · cases hp
+
+/-- At density 1 the shape is filled completely: if every uniform draw is below every
+    density (`random() < 1.0 ≤ density`) and no integer draw equals the default (guaranteed
+    when the default lies outside `[1, interval]`), the points holding a value are ALL points of
+    the shape, in row-major order. -/
+theorem random_full_at_density_one (dflt : Int) (m : Nat) : ∀ (d : Nat) (shape dens : List Nat) (s s' : Draws)
+    (t : Tree Nat Int (d + 1)), shape.length = d + 1 → (∀ q ∈ dens, m ≤ q) → GoodDraws m dflt s →
+    fromRandom dflt d shape dens s = some (t, s') →
+    GoodDraws m dflt s' ∧ points dflt (d + 1) t = allPoints shape := by
+  intro d
+  induction d with
+  | zero =>
+    intro shape dens s s' t hlen hq hI h
+    cases shape with
+    | nil => rw [fromRandom_nil_shape] at h; cases h
+    | cons n ns =>
+      cases dens with
+      | nil => rw [fromRandom_nil_dens] at h; cases h
+      | cons q qs =>
+        rw [fromRandom_zero] at h
+        have hq0 : m ≤ q := hq q (List.mem_cons_self ..)
+        have key := randLoop_full (body := randLeafBody dflt q) (GoodDraws m dflt)
+          (fun (v : Int) => points (κ := Nat) dflt 0 v) [[]]
+          (by
+            intro s0 p s1 hI0 hb
+            obtain ⟨hI1, v, hp, hv⟩ := randLeafBody_good hq0 s0 p s1 hI0 hb
+            subst hp
+            refine ⟨hI1, ?_⟩
+            show List.map (·.1) (if v = dflt then [] else [(([] : List Nat), v)]) = [[]]
+            rw [if_neg hv]; rfl)
+          (List.range n) s s' (asList t) hI h
+        have hns : ns = [] := by
+          cases ns with
+          | nil => rfl
+          | cons a b => simp at hlen
+        subst hns
+        refine ⟨key.1, ?_⟩
+        rw [points_succ]
+        exact key.2
+  | succ d ih =>
+    intro shape dens s s' t hlen hq hI h
+    cases shape with
+    | nil => rw [fromRandom_nil_shape] at h; cases h
+    | cons n ns =>
+      cases dens with
+      | nil => rw [fromRandom_nil_dens] at h; cases h
+      | cons q qs =>
+        rw [fromRandom_succ] at h
+        have hq0 : m ≤ q := hq q (List.mem_cons_self ..)
+        have hqs : ∀ q' ∈ qs, m ≤ q' := fun q' hq' => hq q' (List.mem_cons_of_mem _ hq')
+        have key := randLoop_full (body := randUpperBody dflt d ns qs q) (GoodDraws m dflt)
+          (fun (t' : Tree Nat Int (d + 1)) => points dflt (d + 1) t') (allPoints ns)
+          (by
+            intro s0 p s1 hI0 hb
+            obtain ⟨u, us', hus, hcase⟩ := randUpperBody_some hb
+            have hu : u < q := by
+              have : u ∈ s0.us := by rw [hus]; exact List.mem_cons_self ..
+              exact Nat.lt_of_lt_of_le (hI0.1 u this) hq0
+            rcases hcase with ⟨_, t', ht', hp⟩ | ⟨hnu, _, _, _⟩
+            · have hI0' : GoodDraws m dflt { s0 with us := us' } :=
+                ⟨fun x hx => hI0.1 x (by rw [hus]; exact List.mem_cons_of_mem _ hx), hI0.2⟩
+              obtain ⟨hI1, hpts⟩ := ih ns qs _ s1 t' (by simpa using hlen) hqs hI0' ht'
+              refine ⟨hI1, ?_⟩
+              subst hp
+              by_cases hemp : isEmpty dflt (d + 1) t' = true
+              · rw [if_pos hemp]
+                show allPoints ns = []
+                rw [← hpts]
+                unfold points
+                rw [content_eq_nil_of_isEmpty dflt (d + 1) t' hemp]; rfl
+              · rw [if_neg hemp]; exact hpts
+            · exact absurd hu hnu)
+          (List.range n) s s' (asList t) hI h
+        refine ⟨key.1, ?_⟩
+        rw [points_succ]
+        exact key.2
+
+/-- Determinism: the model is, by construction, a function of (shape, density, default,
+    draws); moreover the result depends only on the draws actually consumed — appending
+    further draws to the stream changes neither the tree nor what is consumed.  (That the same
+    seed yields the same draws is a fact about Python's `random`, observed by the harness.) -/
+theorem random_deterministic (dflt : Int) (eu : List Nat) (ei : List Int) : ∀ (d : Nat) (shape dens : List Nat)
+    (s s' : Draws) (t : Tree Nat Int (d + 1)),
+    fromRandom dflt d shape dens s = some (t, s') →
+    fromRandom dflt d shape dens (s.extend eu ei) = some (t, s'.extend eu ei) := by
+  intro d
+  induction d with
+  | zero =>
+    intro shape dens s s' t h
+    cases shape with
+    | nil => rw [fromRandom_nil_shape] at h; cases h
+    | cons n ns =>
+      cases dens with
+      | nil => rw [fromRandom_nil_dens] at h; cases h
+      | cons q qs =>
+        rw [fromRandom_zero] at h ⊢
+        exact randLoop_extend eu ei (randLeafBody_extend dflt q eu ei) _ _ _ _ h
+  | succ d ih =>
+    intro shape dens s s' t h
+    cases shape with
+    | nil => rw [fromRandom_nil_shape] at h; cases h
+    | cons n ns =>
+      cases dens with
+      | nil => rw [fromRandom_nil_dens] at h; cases h
+      | cons q qs =>
+        rw [fromRandom_succ] at h ⊢
+        refine randLoop_extend eu ei ?_ _ _ _ _ h
+        intro s0 p s1 hb
+        obtain ⟨u, us', hus, hcase⟩ := randUpperBody_some hb
+        obtain ⟨us0, is0⟩ := s0
+        simp only at hus
+        subst hus
+        rcases hcase with ⟨hu, t', ht', hp⟩ | ⟨hnu, hd, hp, hs1⟩
+        · have := ih ns qs _ s1 t' ht'
+          unfold randUpperBody
+          simp only [Draws.extend, List.cons_append, hu, if_true] at this ⊢
+          rw [this, hp]
+        · unfold randUpperBody
+          subst hp; subst hs1
+          simp only [Draws.extend, List.cons_append, hnu, if_false, hd, if_true]
+
+end Random
 end Ft
